@@ -1,6 +1,6 @@
 (* C15 — Activation gradients equal the derivative of the activation, also in a chain.
    Statements only (proofs: Proofs/GradActP.v, Proofs/GradSoftmaxP.v; in-graph lifting:
-   Proofs/GradChainP.v when present).  Over the reals, for every input shape and value, every
+   Proofs/GradChainP.v).  Over the reals, for every input shape and value, every
    upstream gradient gy, either variant rd of the Broadcast back edge:
    x is ANY tracked, not-spent node of ANY heap (a leaf or the result of earlier tracked
    operations — nothing is assumed about x's own back edges); hh is any heap with the structure
@@ -15,11 +15,21 @@
    0 below minus the threshold, 1/2 at exactly 0 (Relu); leakyD m: 1, m, (1+m)/2 (LeakyRelu);
    Softmax along any dimension dim of any rank: p_i * (g_i - rdc * Σ_k p_k * g_k) with rdc = 1 for
    the summing Broadcast rule the property demands and 1/n for the pinned averaging rule (known
-   finding D2).  Inputs with 0 < |x| <= threshold (1e-240) get the tie value: known finding D10. *)
+   finding D2).  Inputs with 0 < |x| <= threshold (1e-240) get the tie value: known finding D10.
+   IN ANY GRAPH (Proofs/GradChainP.v): H is any heap that extends the activation's heap by ANY later
+   operations (prefS), r any tracked root above y, no node outside the activation has a back edge to its
+   internal nodes (no_outside_edge; they are unnamed).  Then back-propagation from r (bp_topo) meets
+   the activation's nodes as ONE contiguous block [y; internals...] of its order, in the order used
+   above, whether or not x was visited before (the ..._nodes_are_a_block_of_the_order theorems), and the FINAL
+   gradient of x is
+       gx[i] = prior[i] + Σ contributions of x's consumers OUTSIDE the activation + gy[i] * D(x[i])
+   with gy the FINAL gradient of y (the ..._gradient_in_any_graph theorems), for an arbitrary prior on x.  Instances:
+   x = Scale(leaf), y = act(x), root = Scale(y); and x with a second consumer created after the
+   activation (the outside term is non-zero). *)
 From Coq Require Import List ZArith Bool Reals.
 From Qeep Require Import Model.Scalar Model.Nd Model.Data Model.Api Model.Grad Model.Backprop Model.Components.
 From Qeep Require Import Proofs.NdP Proofs.BackpropP Spec.RScalar Spec.VjpSpec Proofs.VjpElemP.
-From Qeep Require Proofs.GradActP Proofs.GradSoftmaxP.
+From Qeep Require Proofs.GradActP Proofs.GradSoftmaxP Proofs.GradChainP Proofs.ConstsP Model.Consts.
 Import ListNotations.
 
 Theorem tanh_gradient :
@@ -298,8 +308,369 @@ Theorem sigmoid_gradient_instance :
 Proof. exact @GradActP.GradActExamples.sigmoid_grad_ex. Qed.
 Print Assumptions sigmoid_gradient_instance.
 
-From Qeep Require Proofs.ConstsP Model.Consts.
+Theorem later_nodes_do_not_matter :
+  forall (A : Type) (SA : Scalar A) (rd : bred) (h1 H : heap) (l : list nat)
+    (log : list (nat * tensor A)) (hT' : heap) (log' : list (nat * tensor A)) 
+    (r : res unit),
+  GradChainP.prefS h1 H ->
+  (forall c : nat,
+   In c l ->
+   (c < length h1)%nat /\
+   (forall e : nat * rule, In e (edgesOf h1 c) -> GradChainP.edge_local (length h1) e)) ->
+  fold_left (process_node rd (fun (_ : option nat) (g : tensor A) => g)) l
+    (firstn (length h1) H, log, Ok tt) = (hT', log', r) ->
+  exists H' : heap,
+    fold_left (process_node rd (fun (_ : option nat) (g : tensor A) => g)) l (H, log, Ok tt) =
+    (H', log', r) /\
+    sameS H H' /\
+    (forall i : nat, (i < length h1)%nat -> gradOf H' i = gradOf hT' i) /\
+    (forall i : nat, (length h1 <= i)%nat -> gradOf H' i = gradOf H i).
+Proof. exact @GradChainP.trunc_transfer. Qed.
+Print Assumptions later_nodes_do_not_matter.
+
+Theorem tanh_nodes_are_a_block_of_the_order :
+  forall (A : Type) (SA : Scalar A) (h h1 H : heap) (x y : nat) (name : option nat) (r : nat),
+  tanh_forward h [Some x] name = (h1, Ok y) ->
+  trackedOf h x = true ->
+  dirtyOf h x = false ->
+  GradChainP.prefS h1 H -> wf_heap H -> In y (topoOrder H r) -> GradChainP.topo_block H r x y [].
+Proof. exact @GradChainP.tanh_block. Qed.
+Print Assumptions tanh_nodes_are_a_block_of_the_order.
+
+Theorem relu_nodes_are_a_block_of_the_order :
+  forall (A : Type) (SA : Scalar A) (h h1 H : heap) (x y : nat) (name : option nat) (r : nat),
+  relu_forward h [Some x] name = (h1, Ok y) ->
+  trackedOf h x = true ->
+  dirtyOf h x = false ->
+  GradChainP.prefS h1 H ->
+  wf_heap H ->
+  GradChainP.no_outside_edge H y [length h] ->
+  In y (topoOrder H r) -> GradChainP.topo_block H r x y [length h].
+Proof. exact @GradChainP.relu_block. Qed.
+Print Assumptions relu_nodes_are_a_block_of_the_order.
+
+Theorem leaky_nodes_are_a_block_of_the_order :
+  forall (A : Type) (SA : Scalar A) (h h1 H : heap) (m : A) (x y : nat) (name : option nat)
+    (xv : tensor A) (r : nat),
+  leaky_forward h m [Some x] name = (h1, Ok y) ->
+  valOf h x = Some xv ->
+  wf xv ->
+  trackedOf h x = true ->
+  dirtyOf h x = false ->
+  let a := length h in
+  GradChainP.prefS h1 H ->
+  wf_heap H ->
+  GradChainP.no_outside_edge H y [(a + 5)%nat; (a + 3)%nat; (a + 2)%nat; (a + 4)%nat; (a + 1)%nat; a] ->
+  In y (topoOrder H r) ->
+  GradChainP.topo_block H r x y [(a + 5)%nat; (a + 3)%nat; (a + 2)%nat; (a + 4)%nat; (a + 1)%nat; a].
+Proof. exact @GradChainP.leaky_block. Qed.
+Print Assumptions leaky_nodes_are_a_block_of_the_order.
+
+Theorem sigmoid_nodes_are_a_block_of_the_order :
+  forall (A : Type) (SA : Scalar A) (h h1 H : heap) (x y : nat) (name : option nat) 
+    (xv : tensor A) (r : nat),
+  sigmoid_forward h [Some x] name = (h1, Ok y) ->
+  valOf h x = Some xv ->
+  wf xv ->
+  trackedOf h x = true ->
+  dirtyOf h x = false ->
+  let a := length h in
+  GradChainP.prefS h1 H ->
+  wf_heap H ->
+  GradChainP.no_outside_edge H y [(a + 5)%nat; (a + 4)%nat; (a + 2)%nat; (a + 1)%nat; (a + 3)%nat; a] ->
+  In y (topoOrder H r) ->
+  GradChainP.topo_block H r x y [(a + 5)%nat; (a + 4)%nat; (a + 2)%nat; (a + 1)%nat; (a + 3)%nat; a].
+Proof. exact @GradChainP.sigmoid_block. Qed.
+Print Assumptions sigmoid_nodes_are_a_block_of_the_order.
+
+Theorem softmax_nodes_are_a_block_of_the_order :
+  forall (A : Type) (SA : Scalar A) (h h1 H : heap) (dim x y : nat) (name : option nat) 
+    (xv : tensor A) (r : nat),
+  softmax_forward h dim [Some x] name = (h1, Ok y) ->
+  valOf h x = Some xv ->
+  wf xv ->
+  trackedOf h x = true ->
+  dirtyOf h x = false ->
+  let a := length h in
+  GradChainP.prefS h1 H ->
+  wf_heap H ->
+  GradChainP.no_outside_edge H y [(a + 4)%nat; (a + 2)%nat; (a + 1)%nat; (a + 3)%nat; a] ->
+  In y (topoOrder H r) ->
+  GradChainP.topo_block H r x y [(a + 4)%nat; (a + 2)%nat; (a + 1)%nat; (a + 3)%nat; a].
+Proof. exact @GradChainP.softmax_block. Qed.
+Print Assumptions softmax_nodes_are_a_block_of_the_order.
+
+Theorem tanh_gradient_in_any_graph :
+  forall (thr : R) (draw : bool -> nat -> R) (rd : bred) (h h1 H H' : @heap R) 
+    (x y : nat) (name : option nat) (xv : tensor R) (r : nat) (log : list (nat * tensor R))
+    (gy : tensor R),
+  @valOf R h x = @Some (tensor R) xv ->
+  @wf R xv ->
+  @trackedOf R h x = true ->
+  @dirtyOf R h x = false ->
+  @tanh_forward R (R_scalar thr draw) h [@Some nat x] name = (h1, @Ok nat y) ->
+  @GradChainP.prefS R h1 H ->
+  @rules_own R H ->
+  @wf_heap R H ->
+  @In nat y (@topoOrder R H r) ->
+  GradActP.prior_ok (@dims R xv) (@gradOf R H x) ->
+  @bp_topo R (R_scalar thr draw) rd (fun (_ : option nat) (g : tensor R) => g) H r =
+  (H', log, @Ok unit tt) ->
+  @gradOf R H' y = @Some (tensor R) gy ->
+  @wf R gy ->
+  @dims R gy = @dims R xv ->
+  (forall g : tensor R,
+   @In (tensor R) g (@contributions R (R_scalar thr draw) rd H' H (@GradChainP.outsideOf R H r y []) x) ->
+   @wf R g /\ @dims R g = @dims R xv) ->
+  exists gx : tensor R,
+    @gradOf R H' x = @Some (tensor R) gx /\
+    @dims R gx = @dims R xv /\
+    @wf R gx /\
+    (forall idx : list nat,
+     validIdx (@dims R xv) idx ->
+     elt gx idx =
+     GradActP.prior (@gradOf R H x) idx +
+     GradChainP.sumC (@contributions R (R_scalar thr draw) rd H' H (@GradChainP.outsideOf R H r y []) x)
+       idx + elt gy idx * (1 - tanh (elt xv idx) ^ 2)).
+Proof. exact @GradChainP.tanh_grad_in_graph. Qed.
+Print Assumptions tanh_gradient_in_any_graph.
+
+Theorem relu_gradient_in_any_graph :
+  forall (thr : R) (draw : bool -> nat -> R) (rd : bred) (h h1 H H' : @heap R) 
+    (x y : nat) (name : option nat) (xv : tensor R) (r : nat) (log : list (nat * tensor R))
+    (gy : tensor R),
+  0 <= thr ->
+  @valOf R h x = @Some (tensor R) xv ->
+  @wf R xv ->
+  @trackedOf R h x = true ->
+  @dirtyOf R h x = false ->
+  @relu_forward R (R_scalar thr draw) h [@Some nat x] name = (h1, @Ok nat y) ->
+  let z0 := @length (@node R) h in
+  @GradChainP.prefS R h1 H ->
+  @rules_own R H ->
+  @wf_heap R H ->
+  @GradChainP.no_outside_edge R H y [z0] ->
+  @In nat y (@topoOrder R H r) ->
+  @gradOf R H z0 = @None (tensor R) ->
+  GradActP.prior_ok (@dims R xv) (@gradOf R H x) ->
+  @bp_topo R (R_scalar thr draw) rd (fun (_ : option nat) (g : tensor R) => g) H r =
+  (H', log, @Ok unit tt) ->
+  @gradOf R H' y = @Some (tensor R) gy ->
+  @wf R gy ->
+  @dims R gy = @dims R xv ->
+  (forall g : tensor R,
+   @In (tensor R) g
+     (@contributions R (R_scalar thr draw) rd H' H (@GradChainP.outsideOf R H r y [z0]) x) ->
+   @wf R g /\ @dims R g = @dims R xv) ->
+  exists gx : tensor R,
+    @gradOf R H' x = @Some (tensor R) gx /\
+    @dims R gx = @dims R xv /\
+    @wf R gx /\
+    (forall idx : list nat,
+     validIdx (@dims R xv) idx ->
+     let p :=
+       GradActP.prior (@gradOf R H x) idx +
+       GradChainP.sumC
+         (@contributions R (R_scalar thr draw) rd H' H (@GradChainP.outsideOf R H r y [z0]) x) idx in
+     elt gx idx = p + elt gy idx * GradActP.reluD thr (elt xv idx) /\
+     (thr < elt xv idx -> elt gx idx = p + elt gy idx * 1) /\
+     (elt xv idx < - thr -> elt gx idx = p + elt gy idx * 0) /\
+     (elt xv idx = 0 -> elt gx idx = p + elt gy idx * / 2)).
+Proof. exact @GradChainP.relu_grad_in_graph. Qed.
+Print Assumptions relu_gradient_in_any_graph.
+
+Theorem leaky_gradient_in_any_graph :
+  forall (thr : R) (draw : bool -> nat -> R) (rd : bred) (h h1 H H' : @heap R) 
+    (m : R) (x y : nat) (name : option nat) (xv : tensor R) (r : nat) (log : list (nat * tensor R))
+    (gy : tensor R),
+  0 <= thr ->
+  @valOf R h x = @Some (tensor R) xv ->
+  @wf R xv ->
+  @trackedOf R h x = true ->
+  @dirtyOf R h x = false ->
+  @leaky_forward R (R_scalar thr draw) h m [@Some nat x] name = (h1, @Ok nat y) ->
+  let a := @length (@node R) h in
+  let ints := [(a + 5)%nat; (a + 3)%nat; (a + 2)%nat; (a + 4)%nat; (a + 1)%nat; a] in
+  @GradChainP.prefS R h1 H ->
+  @rules_own R H ->
+  @wf_heap R H ->
+  @GradChainP.no_outside_edge R H y ints ->
+  @In nat y (@topoOrder R H r) ->
+  (forall n : nat, @In nat n ints -> @gradOf R H n = @None (tensor R)) ->
+  GradActP.prior_ok (@dims R xv) (@gradOf R H x) ->
+  @bp_topo R (R_scalar thr draw) rd (fun (_ : option nat) (g : tensor R) => g) H r =
+  (H', log, @Ok unit tt) ->
+  @gradOf R H' y = @Some (tensor R) gy ->
+  @wf R gy ->
+  @dims R gy = @dims R xv ->
+  (forall g : tensor R,
+   @In (tensor R) g
+     (@contributions R (R_scalar thr draw) rd H' H (@GradChainP.outsideOf R H r y ints) x) ->
+   @wf R g /\ @dims R g = @dims R xv) ->
+  exists gx : tensor R,
+    @gradOf R H' x = @Some (tensor R) gx /\
+    @dims R gx = @dims R xv /\
+    @wf R gx /\
+    (forall idx : list nat,
+     validIdx (@dims R xv) idx ->
+     let p :=
+       GradActP.prior (@gradOf R H x) idx +
+       GradChainP.sumC
+         (@contributions R (R_scalar thr draw) rd H' H (@GradChainP.outsideOf R H r y ints) x) idx in
+     elt gx idx = p + elt gy idx * GradActP.leakyD thr m (elt xv idx) /\
+     (thr < elt xv idx -> elt gx idx = p + elt gy idx * 1) /\
+     (elt xv idx < - thr -> elt gx idx = p + elt gy idx * m) /\
+     (elt xv idx = 0 -> elt gx idx = p + elt gy idx * ((1 + m) / 2))).
+Proof. exact @GradChainP.leaky_grad_in_graph. Qed.
+Print Assumptions leaky_gradient_in_any_graph.
+
+Theorem sigmoid_gradient_in_any_graph :
+  forall (thr : R) (draw : bool -> nat -> R) (rd : bred) (h h1 H H' : @heap R) 
+    (x y : nat) (name : option nat) (xv : tensor R) (r : nat) (log : list (nat * tensor R))
+    (gy : tensor R),
+  @valOf R h x = @Some (tensor R) xv ->
+  @wf R xv ->
+  @trackedOf R h x = true ->
+  @dirtyOf R h x = false ->
+  @sigmoid_forward R (R_scalar thr draw) h [@Some nat x] name = (h1, @Ok nat y) ->
+  let a := @length (@node R) h in
+  let ints := [(a + 5)%nat; (a + 4)%nat; (a + 2)%nat; (a + 1)%nat; (a + 3)%nat; a] in
+  @GradChainP.prefS R h1 H ->
+  @rules_own R H ->
+  @wf_heap R H ->
+  @GradChainP.no_outside_edge R H y ints ->
+  @In nat y (@topoOrder R H r) ->
+  (forall n : nat, @In nat n ints -> @gradOf R H n = @None (tensor R)) ->
+  GradActP.prior_ok (@dims R xv) (@gradOf R H x) ->
+  @bp_topo R (R_scalar thr draw) rd (fun (_ : option nat) (g : tensor R) => g) H r =
+  (H', log, @Ok unit tt) ->
+  @gradOf R H' y = @Some (tensor R) gy ->
+  @wf R gy ->
+  @dims R gy = @dims R xv ->
+  (forall g : tensor R,
+   @In (tensor R) g
+     (@contributions R (R_scalar thr draw) rd H' H (@GradChainP.outsideOf R H r y ints) x) ->
+   @wf R g /\ @dims R g = @dims R xv) ->
+  exists gx : tensor R,
+    @gradOf R H' x = @Some (tensor R) gx /\
+    @dims R gx = @dims R xv /\
+    @wf R gx /\
+    (forall idx : list nat,
+     validIdx (@dims R xv) idx ->
+     elt gx idx =
+     GradActP.prior (@gradOf R H x) idx +
+     GradChainP.sumC
+       (@contributions R (R_scalar thr draw) rd H' H (@GradChainP.outsideOf R H r y ints) x) idx +
+     elt gy idx * (GradActP.logistic (elt xv idx) * (1 - GradActP.logistic (elt xv idx)))).
+Proof. exact @GradChainP.sigmoid_grad_in_graph. Qed.
+Print Assumptions sigmoid_gradient_in_any_graph.
+
+Theorem softmax_gradient_in_any_graph :
+  forall (thr : R) (draw : bool -> nat -> R) (rd : bred) (h h1 H H' : @heap R) 
+    (dim x y : nat) (name : option nat) (xv : tensor R) (r : nat) (log : list (nat * tensor R))
+    (gy : tensor R),
+  @valOf R h x = @Some (tensor R) xv ->
+  @wf R xv ->
+  @trackedOf R h x = true ->
+  @dirtyOf R h x = false ->
+  @softmax_forward R (R_scalar thr draw) h dim [@Some nat x] name = (h1, @Ok nat y) ->
+  let a := @length (@node R) h in
+  let n := @nth nat dim (@dims R xv) 0%nat in
+  let ints := [(a + 4)%nat; (a + 2)%nat; (a + 1)%nat; (a + 3)%nat; a] in
+  @GradChainP.prefS R h1 H ->
+  @rules_own R H ->
+  @wf_heap R H ->
+  @GradChainP.no_outside_edge R H y ints ->
+  @In nat y (@topoOrder R H r) ->
+  (forall c : nat, @In nat c ints -> @gradOf R H c = @None (tensor R)) ->
+  GradActP.prior_ok (@dims R xv) (@gradOf R H x) ->
+  @bp_topo R (R_scalar thr draw) rd (fun (_ : option nat) (g : tensor R) => g) H r =
+  (H', log, @Ok unit tt) ->
+  @gradOf R H' y = @Some (tensor R) gy ->
+  @wf R gy ->
+  @dims R gy = @dims R xv ->
+  (forall g : tensor R,
+   @In (tensor R) g
+     (@contributions R (R_scalar thr draw) rd H' H (@GradChainP.outsideOf R H r y ints) x) ->
+   @wf R g /\ @dims R g = @dims R xv) ->
+  exists yv gx : tensor R,
+    @valOf R H y = @Some (tensor R) yv /\
+    @dims R yv = @dims R xv /\
+    (forall i : list nat,
+     validIdx (@dims R xv) i ->
+     elt yv i =
+     exp (elt xv i) / VjpGatherP.sumN n (fun k : nat => exp (elt xv (SoftmaxP.setAt dim k i)))) /\
+    @gradOf R H' x = @Some (tensor R) gx /\
+    @dims R gx = @dims R xv /\
+    @wf R gx /\
+    (forall i : list nat,
+     validIdx (@dims R xv) i ->
+     elt gx i =
+     GradActP.prior (@gradOf R H x) i +
+     GradChainP.sumC
+       (@contributions R (R_scalar thr draw) rd H' H (@GradChainP.outsideOf R H r y ints) x) i +
+     elt yv i *
+     (elt gy i -
+      VjpGatherP.rdc rd n *
+      VjpGatherP.sumN n
+        (fun k : nat => elt yv (SoftmaxP.setAt dim k i) * elt gy (SoftmaxP.setAt dim k i)))).
+Proof. exact @GradChainP.softmax_grad_in_graph. Qed.
+Print Assumptions softmax_gradient_in_any_graph.
+
+Theorem tanh_in_graph_instance :
+  forall (draw : bool -> nat -> R) (rd : bred),
+  exists (H' : @heap R) (log : list (nat * tensor R)) (gy gx : tensor R),
+    @bp_topo R (R_scalar 0 draw) rd (fun (_ : option nat) (g : tensor R) => g)
+      (GradChainP.GradChainExamples.tH draw) 3 = (H', log, @Ok unit tt) /\
+    @gradOf R H' 2 = @Some (tensor R) gy /\
+    @gradOf R H' 1 = @Some (tensor R) gx /\
+    elt gy [0%nat] = 3 /\
+    elt gy [1%nat] = 3 /\
+    elt gx [0%nat] = 3 * (1 - tanh (2 * 3) ^ 2) /\ elt gx [1%nat] = 3 * (1 - tanh (2 * -4) ^ 2).
+Proof. exact @GradChainP.GradChainExamples.tanh_in_graph_ex. Qed.
+Print Assumptions tanh_in_graph_instance.
+
+Theorem tanh_two_consumers_instance :
+  forall (draw : bool -> nat -> R) (rd : bred),
+  @topoOrder R (GradChainP.GradChainExamples.dH draw) 6 =
+  [6%nat; 5%nat; 3%nat; 4%nat; 2%nat; 1%nat; 0%nat] /\
+  (exists (H' : @heap R) (log : list (nat * tensor R)) (gy gx : tensor R),
+     @bp_topo R (R_scalar 0 draw) rd (fun (_ : option nat) (g : tensor R) => g)
+       (GradChainP.GradChainExamples.dH draw) 6 = (H', log, @Ok unit tt) /\
+     @gradOf R H' 2 = @Some (tensor R) gy /\
+     @gradOf R H' 1 = @Some (tensor R) gx /\
+     elt gy [0%nat] = 1 /\
+     elt gy [1%nat] = 1 /\
+     elt gx [0%nat] = 5 + 1 * (1 - tanh (2 * 3) ^ 2) /\ elt gx [1%nat] = 5 + 1 * (1 - tanh (2 * -4) ^ 2)).
+Proof. exact @GradChainP.GradChainExamples.tanh_two_consumers_ex. Qed.
+Print Assumptions tanh_two_consumers_instance.
+
+Theorem relu_in_graph_instance :
+  forall (draw : bool -> nat -> R) (rd : bred),
+  exists (H' : @heap R) (log : list (nat * tensor R)) (gy gx : tensor R),
+    @bp_topo R (R_scalar 0 draw) rd (fun (_ : option nat) (g : tensor R) => g)
+      (GradChainP.GradChainExamples.rH draw) 4 = (H', log, @Ok unit tt) /\
+    @gradOf R H' 3 = @Some (tensor R) gy /\
+    @gradOf R H' 1 = @Some (tensor R) gx /\
+    elt gy [0%nat] = 3 /\ elt gy [1%nat] = 3 /\ elt gx [0%nat] = 3 /\ elt gx [1%nat] = 0.
+Proof. exact @GradChainP.GradChainExamples.relu_in_graph_ex. Qed.
+Print Assumptions relu_in_graph_instance.
+
+Theorem sigmoid_in_graph_instance :
+  forall (draw : bool -> nat -> R) (rd : bred),
+  exists (H' : @heap R) (log : list (nat * tensor R)) (gy gx : tensor R),
+    @bp_topo R (R_scalar 0 draw) rd (fun (_ : option nat) (g : tensor R) => g)
+      (GradChainP.GradChainExamples.sH draw) 9 = (H', log, @Ok unit tt) /\
+    @gradOf R H' 8 = @Some (tensor R) gy /\
+    @gradOf R H' 1 = @Some (tensor R) gx /\
+    elt gy [0%nat] = 3 /\
+    elt gy [1%nat] = 3 /\
+    elt gx [0%nat] = 3 * (GradActP.logistic (2 * 3) * (1 - GradActP.logistic (2 * 3))) /\
+    elt gx [1%nat] = 3 * (GradActP.logistic (2 * -4) * (1 - GradActP.logistic (2 * -4))).
+Proof. exact @GradChainP.GradChainExamples.sigmoid_in_graph_ex. Qed.
+Print Assumptions sigmoid_in_graph_instance.
+
 Theorem library_equality_threshold_at_most_1e_240 :
-  ConstsP.dec_le Consts.c_eq_threshold (1, -240)%Z = true.
-Proof. exact ConstsP.threshold_at_most_1e_240. Qed.
+  ConstsP.dec_le Consts.c_eq_threshold (1%Z, (-240)%Z) = true.
+Proof. exact @ConstsP.threshold_at_most_1e_240. Qed.
 Print Assumptions library_equality_threshold_at_most_1e_240.
